@@ -1,16 +1,29 @@
 /-
   C06 — str, slice and stream input give the same result; read errors surface.
-  The simulation between sources over the whole parser is in LexprModel/Proofs/Sources.lean (when
-  present).  Proved here: the two hand-duplicated symbol scanners stop at the same bytes; a read
+  Proved in LexprModel/Proofs/Sources.lean (with Rel, Hist, SliceIo, StrSlice, Fault; imported here):
+   * slice vs stream, whole parser: `C06_slice_io_value/_datum/_expectEnd/_fromTrait/_fromTraitDatum`
+     and `C06_slice_io_history` — from related states every entry point and every history of calls
+     gives the same values, the same error codes at the same items (positions of a few errors differ
+     between the two, shown by a witness, and are not part of C06) and the same end of input;
+   * &str vs slice: `C06_str_slice` — on valid UTF-8 every history gives *equal* results, positions
+     included (`C06_str_slice_history`, `_value`, `_datum`, `_fromTrait*`); the two unchecked
+     conversions agree with the checked ones (`C06_str_slice_parseSymbolBytes`, `_parseR6rsStr`);
+   * read faults: `C06_fault_peek_next`, `C06_fault_scanners`, `C06_fault_parseToken`,
+     `C06_fault_endSeq_expectEnd`, `C06_fault_reading` — up to and including the tokenizer a run on a
+     stream failing after k bytes either reports the I/O error or returns exactly what the fault-free
+     run returns; a fault is never turned into a value, a syntax error or an end-of-input error.
+     PARTIAL: the fault theorem stops below `next_value` (the state-dependent fuel of the model
+     differs between the two runs); the rest of that clause is carried by the fault-at-every-offset
+     correspondence and oracle.
+  Chunking, `Interrupted` and `BufReader` are std behaviour and not modelled (compared directly).
+  Proved here: the two hand-duplicated symbol scanners stop at the same bytes; a read
   fault surfaces as an I/O error from the primitives and is never reported as end of input; the
   slice and stream readers consume identically.
 -/
 import LexprModel.Lex
+import LexprModel.Proofs.Sources
 namespace Lexpr
 namespace Parse
-
-/-- the slice scanner and the stream scanner have the same terminator set -/
-theorem C06_symTerm_eq (b : UInt8) : symTermSlice b = symTermIo b := rfl
 
 theorem C06_symLen_mode (m m' : Mode) (bs : List UInt8) : symLen m bs = symLen m' bs := by
   induction bs with
